@@ -14,37 +14,42 @@ import GaeaVerif.Lemmas.C24Pool
   util/resource_pool.go at the granularity of its atomic actions, any number of
   threads, any programs, any schedule.
 
-  What is proved:
-  * `pool_no_double_issue` — full strength, every run of every program: a
-    resource is never in two places (channel, operation in progress, client).
-  * `pool_safe_partial` — every run in which no ScaleCapacity other than the
-    one of Close lowers the capacity: handed-out ≤ maxCap, Put never panics
-    (in fact no pool operation panics), quiescent ⇒ len(chan)+inUse = capacity
-    and available = len(chan).  This covers Get (with scale-out and factory
-    failures), Put, Put(nil), idle sweeps, growing SetCapacity/ScaleCapacity,
-    Close, scale-in ticks that do not fire.
-  * `pool_safe_clients_sweep_close` — the same without any hypothesis on the
-    run, for threads whose programs consist of Get/Put/Put(nil)/sweep/Close.
-  * The full statement (no hypothesis, all operations) is FALSE of the code:
-    `shrink_scaleout_overalloc_witness`, `shrink_grow_put_full_witness`,
-    `shrink_close_put_closed_witness` are concrete schedules (replayed on the
-    real pool from corpus/C24) in which a capacity change during the window of
-    a shrinking ScaleCapacity breaks each of the three safety clauses.
+  What is proved (all at full strength: every program made of Get, Put,
+  Put(nil), idle sweep, scale-in tick, SetCapacity, ScaleCapacity, Close, every
+  interleaving of their atomic steps, any number of threads):
+  * `pool_safe` — handed-out ≤ maxCap, every Put finds an open channel with
+    room, no pool operation panics, quiescent ⇒ len(chan)+inUse = capacity and
+    available = len(chan).  `put_never_fails`: no step reports a panic.
+  * `pool_no_double_issue` / `no_two_holders` — a resource is never in two
+    places (channel, operation in progress, client).
+  * `no_deadlock`, `lock_waiter_has_running_holder`, `holder_rank_decreases` —
+    the `scaling` semaphore that serialises the capacity changes introduces
+    no deadlock: whoever waits for `rp.lock` or the semaphore waits for a
+    thread that can move or that itself waits for a resource to be returned;
+    when nothing can move at all, every slot of the pool is in the hands of a
+    client and the channel is empty (the wait of an exhausted pool).
+  Repairs considered for the shrink window (ScaleCapacity lowers `capacity`
+  first and drains afterwards): (a) holding `rp.lock` for the whole
+  ScaleCapacity — a Get that finds the channel empty then blocks on the mutex
+  inside scaleOutResources, deaf to its context, and a client that holds a
+  resource and calls Get while a shrink waits for that resource deadlocks
+  (with the semaphore the same Get fails its TryAcquire, waits on the channel
+  and times out: `no_deadlock` has no such state); (b) draining before
+  lowering the capacity — `Capacity()`/`IsClosed()` would keep the old value
+  while Close or a shrink is pending, which the repository's own TestShrinking
+  and TestClosing assert against, and scale-outs would continue during Close;
+  (c) chosen: a one-slot semaphore held by ScaleCapacity for its whole
+  duration and tried, never awaited, by the scale-out inside `rp.lock`.
+
+  Up to fix b12dcd5 the unrestricted statement was false of the code (a
+  capacity change during the window of a shrinking ScaleCapacity): the former
+  witness schedules are kept below as regression examples (`w1Sched` …) and in
+  corpus/C24.
 -/
 namespace GaeaVerif.C24
 open GaeaVerif.ResourcePool
 
 /-! ## Reachability -/
-
-/-- The step of thread `i` is not a capacity-lowering swap of ScaleCapacity,
-    except the one of Close (target 0, after the timers were stopped). -/
-def Allowed (s : State) (i : Nat) : Prop := ∀ t, s.threads[i]? = some t → AllowedT s.pool t
-
-/-- States reachable from `s0` by any schedule of allowed steps. -/
-inductive Reach (s0 : State) : State → Prop where
-  | init : Reach s0 s0
-  | step {s s' : State} {i : Nat} {a : Alt} {ev : Ev} :
-      Reach s0 s → Allowed s i → step s i a = some (s', ev) → Reach s0 s'
 
 /-- States reachable from `s0` by any schedule at all. -/
 inductive ReachAll (s0 : State) : State → Prop where
@@ -55,24 +60,22 @@ inductive ReachAll (s0 : State) : State → Prop where
 /-! ## The inductive invariant -/
 
 structure Inv (s : State) : Prop where
+  /-- slot balance: slots in the channel, in operations, with clients and still to be
+      added by a growing ScaleCapacity = capacity counter + slots a shrinking one has
+      lowered it by but not yet taken out -/
   eq : (s.pool.chan.length : Int) + (sumN tok s.threads : Nat) + (sumN growP s.threads : Nat)
         = s.pool.capacity + (sumN closeP s.threads : Nat)
   bound : s.pool.capacity + (sumN closeP s.threads : Nat) ≤ s.pool.maxCap
   capNonneg : 0 ≤ s.pool.capacity
-  noCloser : s.pool.capacity ≠ 0 → sumN closer s.threads = 0
-  oneCloser : sumN closer s.threads ≤ 1
-  closedOk : s.pool.closed = true → s.pool.capacity = 0 ∧ sumN closer s.threads = 0
-  timerOff : s.pool.capacity = 0 → s.pool.idleOn = false
-  idleQuiet : s.pool.idleOn = false → s.pool.idleBusy = 0
-  sweeps : sumN sweepF s.threads = s.pool.idleBusy
+  /-- the semaphore is taken exactly while one thread holds it -/
+  holders : sumN holder s.threads = b2n s.pool.scaling
+  /-- after the swap of a ScaleCapacity(0) the capacity counter is 0 -/
+  zero : ∀ t ∈ s.threads, zeroing t → s.pool.capacity = 0
+  closedOk : s.pool.closed = true → s.pool.capacity = 0 ∧ sumN inLoop s.threads = 0
   asserts : ∀ t ∈ s.threads, A s.pool.maxCap t
   inUse : s.pool.inUse = (sumN inUseW s.threads : Nat)
   avail : s.pool.available = s.pool.chan.length + sumI avW s.threads
   alive : ∀ t ∈ s.threads, t.pc ≠ .dead
-
-theorem closeP_zero_of_closer (t : Thread) (h : closer t = 0) : closeP t = 0 := by
-  obtain ⟨prog, pc, held, child⟩ := t
-  cases pc <;> simp_all [closer, closeP]
 
 theorem inv_init {capacity maxCap : Int} {dyn : Bool} {progs : List (List Op)} {s : State}
     (h : init capacity maxCap dyn progs = some s) : Inv s := by
@@ -85,48 +88,49 @@ theorem inv_init {capacity maxCap : Int} {dyn : Bool} {progs : List (List Op)} {
     have z1 : sumN tok (progs.map mkThread) = 0 := sumN_map_zero _ _ (by intro x; simp [tok, pcTok, mkThread]) _
     have z2 : sumN growP (progs.map mkThread) = 0 := sumN_map_zero _ _ (by intro x; simp [growP, mkThread]) _
     have z3 : sumN closeP (progs.map mkThread) = 0 := sumN_map_zero _ _ (by intro x; simp [closeP, mkThread]) _
-    have z4 : sumN closer (progs.map mkThread) = 0 := sumN_map_zero _ _ (by intro x; simp [closer, mkThread]) _
-    have z5 : sumN sweepF (progs.map mkThread) = 0 := sumN_map_zero _ _ (by intro x; simp [sweepF, mkThread]) _
+    have z4 : sumN holder (progs.map mkThread) = 0 := sumN_map_zero _ _ (by intro x; simp [holder, mkThread]) _
+    have z5 : sumN inLoop (progs.map mkThread) = 0 := sumN_map_zero _ _ (by intro x; simp [inLoop, mkThread]) _
     have z6 : sumN inUseW (progs.map mkThread) = 0 := sumN_map_zero _ _ (by intro x; simp [inUseW, mkThread]) _
     have z7 : sumI avW (progs.map mkThread) = 0 := sumI_map_zero _ _ (by intro x; simp [avW, mkThread]) _
     constructor <;> simp_all <;> try omega
-    all_goals (intro t _; subst_vars; simp [A, mkThread])
+    all_goals (intro t _; subst_vars; simp [A, zeroing, mkThread])
 
 /-- Facts about the stepping thread that follow from the invariant. -/
 theorem inv_local {s : State} {i : Nat} {t : Thread} (hI : Inv s) (hti : s.threads[i]? = some t) :
     A s.pool.maxCap t
-    ∧ (s.pool.closed = true → tok t = 0 ∧ growP t = 0 ∧ closer t = 0 ∧ sweepF t = 0)
-    ∧ s.pool.chan.length + tok t ≤ s.pool.maxCap
-    ∧ (closer t = 1 → s.pool.capacity = 0)
-    ∧ (s.pool.capacity ≠ 0 → sumN closeP s.threads = 0)
-    ∧ closeP t ≤ sumN closeP s.threads
-    ∧ sweepF t ≤ s.pool.idleBusy := by
+    ∧ (s.pool.closed = true → tok t = 0 ∧ growP t = 0 ∧ inLoop t = 0)
+    ∧ s.pool.chan.length + tok t + growP t ≤ s.pool.maxCap
+    ∧ (zeroing t → s.pool.capacity = 0)
+    ∧ (holder t = 1 → s.pool.scaling = true)
+    ∧ s.pool.capacity + closeP t ≤ s.pool.maxCap
+    ∧ (holder t = 1 → sumN closeP s.threads = closeP t ∧ sumN inLoop s.threads = inLoop t) := by
   have hmem : t ∈ s.threads := List.mem_of_getElem? hti
   have e1 := sumN_elem_le tok _ i t hti
   have e2 := sumN_elem_le growP _ i t hti
   have e3 := sumN_elem_le closeP _ i t hti
-  have e4 := sumN_elem_le closer _ i t hti
-  have e5 := sumN_elem_le sweepF _ i t hti
+  have e4 := sumN_elem_le holder _ i t hti
+  have e5 := sumN_elem_le inLoop _ i t hti
   have heq := hI.eq
   have hb := hI.bound
-  have hsw := hI.sweeps
-  refine ⟨hI.asserts t hmem, ?_, ?_, ?_, ?_, e3, by omega⟩
+  have hh := hI.holders
+  refine ⟨hI.asserts t hmem, ?_, by omega, hI.zero t hmem, ?_, by omega, ?_⟩
   · intro hc
     obtain ⟨hc0, hcz⟩ := hI.closedOk hc
-    have hcp := sumN_zero_of closeP closer closeP_zero_of_closer _ hcz
-    have hio := hI.idleQuiet (hI.timerOff hc0)
+    have hcp := sumN_zero_of closeP inLoop closeP_zero_of_inLoop _ hcz
     omega
-  · omega
   · intro h1
-    rcases Decidable.em (s.pool.capacity = 0) with h0 | h0
-    · exact h0
-    · have := hI.noCloser h0; omega
-  · intro h0
-    exact sumN_zero_of closeP closer closeP_zero_of_closer _ (hI.noCloser h0)
+    cases hs : s.pool.scaling with
+    | true => rfl
+    | false => rw [hs] at hh; simp at hh; omega
+  · intro h1
+    have hle : sumN holder s.threads ≤ holder t := by
+      cases hs : s.pool.scaling <;> rw [hs] at hh <;> simp at hh <;> omega
+    exact ⟨sumN_eq_of_others_zero closeP holder closeP_zero_of_holder _ i t hti hle,
+           sumN_eq_of_others_zero inLoop holder inLoop_zero_of_holder _ i t hti hle⟩
 
-/-- The invariant is preserved by every allowed step of every thread. -/
+/-- The invariant is preserved by every step of every thread. -/
 theorem inv_step {s s' : State} {i : Nat} {a : Alt} {ev : Ev}
-    (hI : Inv s) (hall : Allowed s i) (hs : step s i a = some (s', ev)) : Inv s' := by
+    (hI : Inv s) (hs : step s i a = some (s', ev)) : Inv s' := by
   unfold step at hs
   cases hti : s.threads[i]? with
   | none => simp [hti] at hs
@@ -141,50 +145,56 @@ theorem inv_step {s s' : State} {i : Nat} {a : Alt} {ev : Ev}
       have hth : s'.threads = match r.spawn with
           | some c => s.threads.set i r.thr ++ [c] | none => s.threads.set i r.thr :=
         (congrArg State.threads hs').symm
-      obtain ⟨hA, hcl, hroom, hc0, hS, hle, hsw⟩ := inv_local hI hti
-      have hallT := hall t hti
-      have L1 := step_eq _ _ _ _ hr hA hallT hcl hroom
-      obtain ⟨C1, C2, C3, C4, C5⟩ := step_cap _ _ _ _ (sumN closeP s.threads) hr hA hallT hcl hI.capNonneg
-        (fun hc => (hI.closedOk hc).1) hc0 hS hI.bound hle
-      obtain ⟨T1, T2, T3⟩ := step_timer _ _ _ _ hr hA hallT hcl hI.capNonneg hI.timerOff hI.idleQuiet hsw
-      obtain ⟨A1, A2, A3⟩ := step_A _ _ _ _ hr hA hallT hI.capNonneg
+      obtain ⟨hA, hcl, hroom, hz, hh, hbt, hone⟩ := inv_local hI hti
+      have L1 := step_eq _ _ _ _ hr hA hcl hroom
+      obtain ⟨C1, C2, C3, C4, C5, C6⟩ := step_cap _ _ _ _ hr hA hcl hI.capNonneg
+        (fun hc => (hI.closedOk hc).1) hz hbt
+      have H1 := step_holder _ _ _ _ hr hh
+      obtain ⟨A1, A2, A3⟩ := step_A _ _ _ _ hr hA hI.capNonneg
       obtain ⟨K1, K2, K3⟩ := step_counters _ _ _ _ hr hcl hroom hA
       have s1 := sumN_step tok s.threads s'.threads i t r.thr r.spawn hti hth (fun c hc => (A3 c hc).1)
       have s2 := sumN_step growP s.threads s'.threads i t r.thr r.spawn hti hth (fun c hc => (A3 c hc).2.1)
       have s3 := sumN_step closeP s.threads s'.threads i t r.thr r.spawn hti hth (fun c hc => (A3 c hc).2.2.1)
-      have s4 := sumN_step closer s.threads s'.threads i t r.thr r.spawn hti hth (fun c hc => (A3 c hc).2.2.2.1)
-      have s5 := sumN_step sweepF s.threads s'.threads i t r.thr r.spawn hti hth (fun c hc => (A3 c hc).2.2.2.2.1)
+      have s4 := sumN_step holder s.threads s'.threads i t r.thr r.spawn hti hth (fun c hc => (A3 c hc).2.2.2.1)
+      have s5 := sumN_step inLoop s.threads s'.threads i t r.thr r.spawn hti hth (fun c hc => (A3 c hc).2.2.2.2.1)
       have s6 := sumN_step inUseW s.threads s'.threads i t r.thr r.spawn hti hth (fun c hc => (A3 c hc).2.2.2.2.2.1)
       have s7 := sumI_step avW s.threads s'.threads i t r.thr r.spawn hti hth (fun c hc => (A3 c hc).2.2.2.2.2.2.1)
-      have e4 := sumN_elem_le closer _ i t hti
+      have e3 := sumN_elem_le closeP _ i t hti
       have heq := hI.eq
       have hb := hI.bound
-      have hsw' := hI.sweeps
       have hiu := hI.inUse
       have hav := hI.avail
-      have h1c := hI.oneCloser
+      have hho := hI.holders
+      have hle1 := holder_le_one t
+      have hil := inLoop_le_holder t
       constructor
       · rw [hp]; omega
-      · rw [hp]; omega
+      · -- bound
+        rw [hp]
+        rcases Nat.eq_zero_or_pos (holder t) with h0 | h0
+        · obtain ⟨c1, c2⟩ := C3 h0
+          have := closeP_zero_of_holder t h0
+          rw [c1]; omega
+        · obtain ⟨o1, _⟩ := hone (by omega)
+          omega
       · rw [hp]; exact C1
-      · rw [hp]
-        intro h0
-        obtain ⟨c1, c2⟩ := C3 h0
-        have := hI.noCloser c2
-        omega
-      · rcases C4 with c | ⟨c1, c2⟩
-        · omega
-        · have := hI.noCloser c1; omega
-      · rw [hp]
+      · rw [hp]; omega
+      · -- zero
+        rw [hp]
+        intro t' ht' hzt
+        rcases mem_step hth ht' with h | h | h
+        · exact C4 (hI.zero t' h hzt)
+        · subst h; exact C5 hzt
+        · exact absurd hzt (A3 _ h).2.2.2.2.2.2.2.2.2
+      · -- closedOk
+        rw [hp]
         intro hc
-        obtain ⟨c1, c2, c3⟩ := C5 hc
+        obtain ⟨c1, c2, c3⟩ := C6 hc
         refine ⟨c1, ?_⟩
         rcases c3 with c3 | c3
         · have := (hI.closedOk c3).2; omega
-        · omega
-      · rw [hp]; exact T1
-      · rw [hp]; exact T2
-      · rw [hp]; omega
+        · obtain ⟨_, o2⟩ := hone (by omega)
+          omega
       · rw [hp]
         intro t' ht'
         rw [A2]
@@ -198,7 +208,7 @@ theorem inv_step {s s' : State} {i : Nat} {a : Alt} {ev : Ev}
         rcases mem_step hth ht' with h | h | h
         · exact hI.alive t' h
         · subst h; exact K3
-        · exact (A3 _ h).2.2.2.2.2.2.2.2
+        · exact (A3 _ h).2.2.2.2.2.2.2.2.1
 
 /-! ## The property -/
 
@@ -255,31 +265,31 @@ theorem safe_of_inv {s : State} (hI : Inv s) : Safe s := by
     have hav := hI.avail
     constructor <;> omega
 
-theorem reach_inv {s0 s : State} (h0 : Inv s0) (hr : Reach s0 s) : Inv s := by
+theorem reach_inv {s0 s : State} (h0 : Inv s0) (hr : ReachAll s0 s) : Inv s := by
   induction hr with
   | init => exact h0
-  | step _ hall hs ih => exact inv_step ih hall hs
+  | step _ hs ih => exact inv_step ih hs
 
 /--
-  **C24, partial.**  Full statement: for every reachable state under every
-  interleaving of every program (get, put, idle sweep, scale-in tick,
-  SetCapacity, ScaleCapacity, Close): `Safe s`.  That statement is false of
-  util/resource_pool.go (see the `_witness` theorems).  Proved here: along
-  every schedule in which the only capacity-lowering swap of ScaleCapacity is
-  the one of Close (`Allowed`), for any number of threads running any
-  programs, from any valid pool configuration: never more than `maxCap`
-  resources handed out, every Put finds room in an open channel, no pool
-  operation panics, and in quiescent states `len(chan) + inUse = capacity`.
+  **C24.**  For every reachable state under every interleaving of every
+  program (Get with any number of factory failures and scale-out, Put,
+  Put(nil), idle sweep, scale-in tick and its goroutine, SetCapacity,
+  ScaleCapacity, Close, the passing of time), for any number of threads, from
+  any valid pool configuration: never more than `maxCap` resources handed out,
+  every Put finds room in an open channel, no pool operation panics, and in
+  quiescent states `len(chan) + inUse = capacity` (and `available = len(chan)`).
+  (This was `pool_safe_partial`, restricted to runs without a non-closing
+  shrink, before the fix commits b12dcd5 and 481c0c2.)
 -/
-theorem pool_safe_partial {capacity maxCap : Int} {dyn : Bool} {progs : List (List Op)} {s0 s : State}
-    (h0 : init capacity maxCap dyn progs = some s0) (hr : Reach s0 s) : Safe s :=
+theorem pool_safe {capacity maxCap : Int} {dyn : Bool} {progs : List (List Op)} {s0 s : State}
+    (h0 : init capacity maxCap dyn progs = some s0) (hr : ReachAll s0 s) : Safe s :=
   safe_of_inv (reach_inv (inv_init h0) hr)
 
-/-- In the same runs, no step reports a panic: in particular a Put of a resource
+/-- No step of any run reports a panic: in particular a Put of a resource
     obtained from Get never hits the `full` or the closed-channel branch. -/
-theorem put_never_fails_partial {capacity maxCap : Int} {dyn : Bool} {progs : List (List Op)} {s0 s s' : State}
+theorem put_never_fails {capacity maxCap : Int} {dyn : Bool} {progs : List (List Op)} {s0 s s' : State}
     {i : Nat} {a : Alt} {ev : Ev}
-    (h0 : init capacity maxCap dyn progs = some s0) (hr : Reach s0 s)
+    (h0 : init capacity maxCap dyn progs = some s0) (hr : ReachAll s0 s)
     (hs : step s i a = some (s', ev)) : evIsPanic ev = false := by
   have hI := reach_inv (inv_init h0) hr
   unfold step at hs
@@ -298,14 +308,54 @@ theorem put_never_fails_partial {capacity maxCap : Int} {dyn : Bool} {progs : Li
       | false => rfl
       | true => exact absurd (ev_panic_dead _ _ _ _ hr' (hev ▸ hp)) K
 
-/-! ## The fragment without hypothesis on the schedule -/
+/-- The former fragment theorem (clients, the idle sweeper and Close), now a
+    special case of `pool_safe`. -/
+theorem pool_safe_clients_sweep_close {capacity maxCap : Int} {dyn : Bool} {progs : List (List Op)} {s0 s : State}
+    (_hprogs : ∀ p ∈ progs, p.all basicOp = true)
+    (h0 : init capacity maxCap dyn progs = some s0) (hr : ReachAll s0 s) : Safe s :=
+  pool_safe h0 hr
 
-/-- Every thread belongs to the fragment Get/Put/Put(nil)/sweep/Close. -/
-def BasicS (s : State) : Prop :=
-  ∀ t ∈ s.threads, BasicT t ∧ (inClose t.pc = true → s.pool.idleOn = false)
+/-! ## Locks and progress: the `scaling` semaphore introduces no deadlock -/
 
-theorem basic_step {s s' : State} {i : Nat} {a : Alt} {ev : Ev}
-    (hB : BasicS s) (hs : step s i a = some (s', ev)) : BasicS s' ∧ Allowed s i := by
+/-- Ownership of `rp.lock`, the running timer callbacks, and the values the
+    holder of the semaphore compares-and-swaps against. -/
+structure LInv (s : State) : Prop where
+  locks : sumN lockW s.threads = b2n s.pool.lock
+  sweeps : sumN sweepF s.threads = s.pool.idleBusy
+  ticks : sumN tickF s.threads = s.pool.capBusy
+  cas : ∀ t ∈ s.threads, casOk s.pool t
+
+theorem linv_init {capacity maxCap : Int} {dyn : Bool} {progs : List (List Op)} {s : State}
+    (h : init capacity maxCap dyn progs = some s) : LInv s := by
+  unfold init newPool at h
+  split at h
+  · simp at h
+  · simp at h
+    subst h
+    have z1 : sumN lockW (progs.map mkThread) = 0 := sumN_map_zero _ _ (by intro x; simp [lockW, mkThread]) _
+    have z2 : sumN sweepF (progs.map mkThread) = 0 := sumN_map_zero _ _ (by intro x; simp [sweepF, mkThread]) _
+    have z3 : sumN tickF (progs.map mkThread) = 0 := sumN_map_zero _ _ (by intro x; simp [tickF, mkThread]) _
+    constructor <;> simp_all
+    intro t _; subst_vars; simp [casOk, mkThread]
+
+theorem casOk_congr {p q : Pool} {t : Thread} (h : q.capacity = p.capacity) (hc : casOk p t) : casOk q t := by
+  obtain ⟨prog, pc, held, child⟩ := t
+  cases pc <;> simp_all [casOk]
+
+theorem rank_congr {p q : Pool} (t : Thread) (h : q.capacity = p.capacity) : rank q t = rank p t := by
+  obtain ⟨prog, pc, held, child⟩ := t
+  cases pc <;> simp_all [rank]
+
+/-- While thread `i` holds the semaphore no thread at another index does. -/
+theorem other_not_holder {s : State} {i j : Nat} {t u : Thread} (hI : Inv s)
+    (hti : s.threads[i]? = some t) (huj : s.threads[j]? = some u) (hij : j ≠ i) (hu : holder u = 1) :
+    holder t = 0 := by
+  have h2 := sumN_two_le holder s.threads i j t u (fun e => hij e.symm) hti huj
+  have hh := hI.holders
+  cases hs : s.pool.scaling <;> rw [hs] at hh <;> simp at hh <;> omega
+
+theorem linv_step {s s' : State} {i : Nat} {a : Alt} {ev : Ev}
+    (hI : Inv s) (hL : LInv s) (hs : step s i a = some (s', ev)) : LInv s' := by
   unfold step at hs
   cases hti : s.threads[i]? with
   | none => simp [hti] at hs
@@ -316,56 +366,333 @@ theorem basic_step {s s' : State} {i : Nat} {a : Alt} {ev : Ev}
     | some r =>
       simp only [hr, Option.some.injEq, Prod.mk.injEq] at hs
       obtain ⟨hs', _⟩ := hs
-      have hmem : t ∈ s.threads := List.mem_of_getElem? hti
-      obtain ⟨hBt, hct⟩ := hB t hmem
-      obtain ⟨b1, b2, b3, b4⟩ := step_basic _ _ _ _ hr hBt hct
       have hp : s'.pool = r.pool := (congrArg State.pool hs').symm
       have hth : s'.threads = match r.spawn with
           | some c => s.threads.set i r.thr ++ [c] | none => s.threads.set i r.thr :=
         (congrArg State.threads hs').symm
-      refine ⟨?_, ?_⟩
-      · intro t' ht'
-        rw [hp]
-        rcases mem_step hth ht' with h | h | h
-        · obtain ⟨x1, x2⟩ := hB t' h
-          exact ⟨x1, fun hc => b4 (x2 hc)⟩
-        · subst h; exact ⟨b1, b2⟩
-        · rw [b3] at h; cases h
-      · intro t2 ht2
-        rw [hti] at ht2
-        cases ht2
-        exact basic_allowed _ _ hBt hct
+      obtain ⟨hA, hcl, hroom, hz, hh, hbt, hone⟩ := inv_local hI hti
+      have e1 := sumN_elem_le lockW _ i t hti
+      have e2 := sumN_elem_le sweepF _ i t hti
+      have e3 := sumN_elem_le tickF _ i t hti
+      have hl := hL.locks
+      have hsw := hL.sweeps
+      have htk := hL.ticks
+      have hlk : lockW t = 1 → s.pool.lock = true := by
+        intro h1
+        cases hq : s.pool.lock with
+        | true => rfl
+        | false => rw [hq] at hl; simp at hl; omega
+      obtain ⟨K1, K2, K3, K4⟩ := step_locks _ _ _ _ hr hcl hroom hlk (by omega) (by omega)
+      obtain ⟨Q1, Q2⟩ := step_casOk _ _ _ _ hr
+      obtain ⟨_, _, C3, _⟩ := step_cap _ _ _ _ hr hA hcl hI.capNonneg (fun hc => (hI.closedOk hc).1) hz hbt
+      have s1 := sumN_step lockW s.threads s'.threads i t r.thr r.spawn hti hth (fun c hc => (K4 c hc).1)
+      have s2 := sumN_step sweepF s.threads s'.threads i t r.thr r.spawn hti hth (fun c hc => (K4 c hc).2.1)
+      have s3 := sumN_step tickF s.threads s'.threads i t r.thr r.spawn hti hth (fun c hc => (K4 c hc).2.2)
+      constructor
+      · rw [hp]; omega
+      · rw [hp]; omega
+      · rw [hp]; omega
+      · rw [hp]
+        intro t' ht'
+        rcases mem_step_idx hth ht' with ⟨j, hji, htj⟩ | h | h
+        · rcases Nat.eq_zero_or_pos (holder t') with h0 | h0
+          · exact casOk_of_not_holder _ _ h0
+          · have h1 : holder t' = 1 := by have := holder_le_one t'; omega
+            have ht0 := other_not_holder hI hti htj hji h1
+            exact casOk_congr (C3 ht0).1 (hL.cas t' (List.mem_of_getElem? htj))
+        · subst h; exact Q1
+        · exact casOk_of_not_holder _ _ (Q2 _ h)
 
-theorem basic_reach {s0 s : State} (hB : BasicS s0) (hr : ReachAll s0 s) : BasicS s ∧ Reach s0 s := by
+theorem reach_linv {capacity maxCap : Int} {dyn : Bool} {progs : List (List Op)} {s0 s : State}
+    (h0 : init capacity maxCap dyn progs = some s0) (hr : ReachAll s0 s) : Inv s ∧ LInv s := by
   induction hr with
-  | init => exact ⟨hB, .init⟩
-  | step _ hs ih =>
-    obtain ⟨b, a⟩ := basic_step ih.1 hs
-    exact ⟨b, .step ih.2 a hs⟩
+  | init => exact ⟨inv_init h0, linv_init h0⟩
+  | step _ hs ih => exact ⟨inv_step ih.1 hs, linv_step ih.1 ih.2 hs⟩
+
+theorem step_isSome {s : State} {j : Nat} {u : Thread} {a : Alt}
+    (hj : s.threads[j]? = some u) (h : (stepThread s.pool u a).isSome = true) : (step s j a).isSome = true := by
+  unfold step
+  simp only [hj]
+  cases hr : stepThread s.pool u a with
+  | none => simp [hr] at h
+  | some r => simp
+
+theorem step_none {s : State} {j : Nat} {u : Thread} {a : Alt}
+    (hj : s.threads[j]? = some u) (h : step s j a = none) : stepThread s.pool u a = none := by
+  cases hr : stepThread s.pool u a with
+  | none => rfl
+  | some r => have := step_isSome hj (by simp [hr] : (stepThread s.pool u a).isSome = true); simp [h] at this
+
+theorem lockW_le_one (t : Thread) : lockW t ≤ 1 := by
+  obtain ⟨prog, pc, held, child⟩ := t
+  cases pc <;> simp [lockW]
+theorem sweepF_le_one (t : Thread) : sweepF t ≤ 1 := by
+  obtain ⟨prog, pc, held, child⟩ := t
+  cases pc <;> simp [sweepF]
+theorem tickF_le_one (t : Thread) : tickF t ≤ 1 := by
+  obtain ⟨prog, pc, held, child⟩ := t
+  cases pc <;> simp [tickF]
+
+/-- **`rp.lock` is never awaited in vain**: when it is held, the thread that
+    holds it can take its next step (the locked sections — scale-out with
+    its TryAcquire, the scale-in tick — contain no blocking action). -/
+theorem lock_held_has_running_holder {capacity maxCap : Int} {dyn : Bool} {progs : List (List Op)} {s0 s : State}
+    (h0 : init capacity maxCap dyn progs = some s0) (hr : ReachAll s0 s) (hl : s.pool.lock = true) (a : Alt) :
+    ∃ j u, s.threads[j]? = some u ∧ lockW u = 1 ∧ (step s j a).isSome = true := by
+  obtain ⟨_, hL⟩ := reach_linv h0 hr
+  have h1 := hL.locks
+  rw [hl] at h1
+  obtain ⟨u, hu, hpos⟩ := sumN_pos_exists lockW s.threads (by simp at h1; omega)
+  have hu1 : lockW u = 1 := by have := lockW_le_one u; omega
+  obtain ⟨j, hj⟩ := List.mem_iff_getElem?.mp hu
+  exact ⟨j, u, hj, hu1, step_isSome hj (lock_section_enabled _ _ _ hu1)⟩
+
+/-- **The `scaling` semaphore is never awaited in vain**: when it is taken,
+    the thread that holds it can take its next step, or it is a shrinking
+    ScaleCapacity (Close) waiting on the empty channel for a resource to be
+    returned — the wait ScaleCapacity always had, which every Put ends. -/
+theorem scaling_held_has_running_holder {capacity maxCap : Int} {dyn : Bool} {progs : List (List Op)} {s0 s : State}
+    (h0 : init capacity maxCap dyn progs = some s0) (hr : ReachAll s0 s) (hsc : s.pool.scaling = true) (a : Alt) :
+    ∃ j u, s.threads[j]? = some u ∧ holder u = 1 ∧
+      ((step s j a).isSome = true
+        ∨ (s.pool.chan = [] ∧ s.pool.closed = false ∧ ∃ c old i, u.pc = .sShrRecv c old i)) := by
+  obtain ⟨hI, _⟩ := reach_linv h0 hr
+  have h1 := hI.holders
+  rw [hsc] at h1
+  obtain ⟨u, hu, hpos⟩ := sumN_pos_exists holder s.threads (by simp at h1; omega)
+  have hu1 : holder u = 1 := by have := holder_le_one u; omega
+  obtain ⟨j, hj⟩ := List.mem_iff_getElem?.mp hu
+  refine ⟨j, u, hj, hu1, ?_⟩
+  rcases holder_enabled s.pool u a hu1 with h | h | ⟨hfull, c, old, i, hpc⟩
+  · exact Or.inl (step_isSome hj h)
+  · exact Or.inr h
+  · exfalso
+    obtain ⟨hA, _, hroom, _⟩ := inv_local hI hj
+    simp [A, hpc] at hA
+    simp [growP, hpc] at hroom
+    omega
+
+/-- `Timer.Stop` in Close waits for a running callback only: a running idle
+    sweep can always move, a running scale-in tick can move or waits for `rp.lock`. -/
+theorem timer_stop_waits_for_running_callback {capacity maxCap : Int} {dyn : Bool} {progs : List (List Op)} {s0 s : State}
+    (h0 : init capacity maxCap dyn progs = some s0) (hr : ReachAll s0 s) (a : Alt) :
+    (s.pool.idleBusy ≠ 0 → ∃ j u, s.threads[j]? = some u ∧ sweepF u = 1 ∧ (step s j a).isSome = true)
+    ∧ (s.pool.capBusy ≠ 0 → ∃ j u, s.threads[j]? = some u ∧ tickF u = 1 ∧
+        ((step s j a).isSome = true ∨ (u.pc = .tLock ∧ s.pool.lock = true))) := by
+  obtain ⟨hI, hL⟩ := reach_linv h0 hr
+  constructor
+  · intro hb
+    obtain ⟨u, hu, hpos⟩ := sumN_pos_exists sweepF s.threads (by have := hL.sweeps; omega)
+    have hu1 : sweepF u = 1 := by have := sweepF_le_one u; omega
+    obtain ⟨j, hj⟩ := List.mem_iff_getElem?.mp hu
+    obtain ⟨_, _, hroom, _⟩ := inv_local hI hj
+    exact ⟨j, u, hj, hu1, step_isSome hj (sweep_enabled _ _ _ hu1 (by omega))⟩
+  · intro hb
+    obtain ⟨u, hu, hpos⟩ := sumN_pos_exists tickF s.threads (by have := hL.ticks; omega)
+    have hu1 : tickF u = 1 := by have := tickF_le_one u; omega
+    obtain ⟨j, hj⟩ := List.mem_iff_getElem?.mp hu
+    refine ⟨j, u, hj, hu1, ?_⟩
+    cases hl : s.pool.lock with
+    | false => exact Or.inl (step_isSome hj (tick_enabled _ _ _ hu1 hl))
+    | true =>
+      by_cases hpc : u.pc = .tLock
+      · exact Or.inr ⟨hpc, rfl⟩
+      · left
+        apply step_isSome hj
+        obtain ⟨prog, pc, held, child⟩ := u
+        cases pc <;> simp [tickF] at hu1 <;> simp at hpc <;> simp only [stepThread] <;> (repeat' split) <;> simp
+
+/-- **The holder of the semaphore releases it after a bounded number of its own
+    steps**: each of them lowers `rank` (its compare-and-swap cannot fail: nobody
+    else changes the capacity) or releases the semaphore. -/
+theorem holder_rank_decreases {capacity maxCap : Int} {dyn : Bool} {progs : List (List Op)} {s0 s s' : State}
+    {i : Nat} {a : Alt} {ev : Ev} {t : Thread}
+    (h0 : init capacity maxCap dyn progs = some s0) (hr : ReachAll s0 s)
+    (hs : step s i a = some (s', ev)) (hti : s.threads[i]? = some t) (hh : holder t = 1) :
+    ∃ t', s'.threads[i]? = some t' ∧ (holder t' = 0 ∨ rank s'.pool t' < rank s.pool t) := by
+  obtain ⟨hI, hL⟩ := reach_linv h0 hr
+  have hlen : i < s.threads.length := by
+    rcases Nat.lt_or_ge i s.threads.length with h | h
+    · exact h
+    · simp [List.getElem?_eq_none h] at hti
+  unfold step at hs
+  simp only [hti] at hs
+  cases hr' : stepThread s.pool t a with
+  | none => simp [hr'] at hs
+  | some r =>
+    simp only [hr', Option.some.injEq, Prod.mk.injEq] at hs
+    obtain ⟨hs', _⟩ := hs
+    subst hs'
+    have hmem : t ∈ s.threads := List.mem_of_getElem? hti
+    refine ⟨r.thr, ?_, step_rank _ _ _ _ hr' hh (hI.asserts t hmem) (hL.cas t hmem)⟩
+    cases r.spawn with
+    | none => simp [hlen]
+    | some c => simp [List.getElem?_append_left, hlen]
+
+/-- … and the steps of the other threads leave its rank alone. -/
+theorem holder_rank_stable {capacity maxCap : Int} {dyn : Bool} {progs : List (List Op)} {s0 s s' : State}
+    {i j : Nat} {a : Alt} {ev : Ev} {u : Thread}
+    (h0 : init capacity maxCap dyn progs = some s0) (hr : ReachAll s0 s)
+    (hs : step s i a = some (s', ev)) (hji : j ≠ i) (huj : s.threads[j]? = some u) (hh : holder u = 1) :
+    s'.threads[j]? = some u ∧ rank s'.pool u = rank s.pool u := by
+  obtain ⟨hI, hL⟩ := reach_linv h0 hr
+  have hlen : j < s.threads.length := by
+    rcases Nat.lt_or_ge j s.threads.length with h | h
+    · exact h
+    · simp [List.getElem?_eq_none h] at huj
+  unfold step at hs
+  cases hti : s.threads[i]? with
+  | none => simp [hti] at hs
+  | some t =>
+    simp only [hti] at hs
+    cases hr' : stepThread s.pool t a with
+    | none => simp [hr'] at hs
+    | some r =>
+      simp only [hr', Option.some.injEq, Prod.mk.injEq] at hs
+      obtain ⟨hs', _⟩ := hs
+      subst hs'
+      obtain ⟨hA, hcl, hroom, hz, _, hbt, _⟩ := inv_local hI hti
+      obtain ⟨_, _, C3, _⟩ := step_cap _ _ _ _ hr' hA hcl hI.capNonneg (fun hc => (hI.closedOk hc).1) hz hbt
+      have ht0 := other_not_holder hI hti huj hji hh
+      constructor
+      · have hne : i ≠ j := fun e => hji e.symm
+        cases r.spawn with
+        | none => simp [hne, huj]
+        | some c =>
+          show (s.threads.set i r.thr ++ [c])[j]? = some u
+          rw [List.getElem?_append_left (by simpa using hlen), List.getElem?_set_ne hne]
+          exact huj
+      · exact rank_congr u (C3 ht0).1
+
+/-- The same for `rp.lock`: every step inside a locked section brings the unlock nearer. -/
+theorem lock_rank_decreases {capacity maxCap : Int} {dyn : Bool} {progs : List (List Op)} {s0 s s' : State}
+    {i : Nat} {a : Alt} {ev : Ev} {t : Thread}
+    (h0 : init capacity maxCap dyn progs = some s0) (hr : ReachAll s0 s)
+    (hs : step s i a = some (s', ev)) (hti : s.threads[i]? = some t) (hh : lockW t = 1) :
+    ∃ t', s'.threads[i]? = some t' ∧ lockRank t' < lockRank t ∧ (lockW t' = 0 ↔ lockRank t' = 0) := by
+  obtain ⟨hI, hL⟩ := reach_linv h0 hr
+  have hlen : i < s.threads.length := by
+    rcases Nat.lt_or_ge i s.threads.length with h | h
+    · exact h
+    · simp [List.getElem?_eq_none h] at hti
+  unfold step at hs
+  simp only [hti] at hs
+  cases hr' : stepThread s.pool t a with
+  | none => simp [hr'] at hs
+  | some r =>
+    simp only [hr', Option.some.injEq, Prod.mk.injEq] at hs
+    obtain ⟨hs', _⟩ := hs
+    subst hs'
+    have hmem : t ∈ s.threads := List.mem_of_getElem? hti
+    refine ⟨r.thr, ?_, step_lockRank _ _ _ _ hr' hh (hL.cas t hmem)⟩
+    cases r.spawn with
+    | none => simp [hlen]
+    | some c => simp [List.getElem?_append_left, hlen]
+
+/-- A thread whose program has ended. -/
+def Finished (t : Thread) : Prop := t.pc = .idle ∧ t.prog = []
+instance : DecidablePred Finished := fun t => by unfold Finished; exact inferInstance
+/-- A Get waiting for a resource (`select` on the channel and `ctx.Done()`). -/
+def AtGetWait (t : Thread) : Prop := ∃ f, t.pc = .gWait f
+/-- A shrinking ScaleCapacity (Close) waiting for a slot. -/
+def AtShrinkRecv (t : Thread) : Prop := ∃ c old i, t.pc = .sShrRecv c old i
+/-- A ScaleCapacity waiting for the semaphore. -/
+def AtScaleLock (t : Thread) : Prop := ∃ c, t.pc = .sLock c
 
 /--
-  **C24 for clients, the idle sweeper and Close — no hypothesis on the schedule.**
-  Any number of threads whose programs consist of Get (with any number of
-  factory failures, with scale-out when `Dynamic`), Put, Put(nil), idle sweeps,
-  Close (and the passing of time), under every interleaving of their atomic
-  steps: the pool is `Safe` in every reachable state.
+  **No deadlock.**  If, without a timeout, no thread at all can move, then
+  every thread has finished its program, or waits in Get for a resource, or is
+  a shrinking ScaleCapacity/Close waiting for a slot, or waits for the semaphore
+  held by such a ScaleCapacity; and unless all have finished, the pool is simply
+  exhausted: the channel is empty and open, and every one of the pool's slots
+  (capacity + the ones the shrink still has to take out) is a resource in the
+  hands of a client.  That is the wait the pool had before the semaphore was
+  introduced (a Get on an exhausted pool, Close "waits for all resources to be
+  returned"), ended by any Put — which takes neither lock — or by the Get's
+  context; nobody ever waits for a lock whose holder cannot move.
 -/
-theorem pool_safe_clients_sweep_close {capacity maxCap : Int} {dyn : Bool} {progs : List (List Op)} {s0 s : State}
-    (hprogs : ∀ p ∈ progs, p.all basicOp = true)
-    (h0 : init capacity maxCap dyn progs = some s0) (hr : ReachAll s0 s) : Safe s := by
-  have hB : BasicS s0 := by
-    unfold init at h0
-    cases hp : newPool capacity maxCap dyn with
-    | none => simp [hp] at h0
-    | some p =>
-      simp [hp] at h0
-      subst h0
-      intro t ht
-      simp at ht
-      obtain ⟨pr, hpr, rfl⟩ := ht
-      simp [BasicT, mkThread, inClose]
-      exact fun x hx => List.all_eq_true.mp (hprogs pr hpr) x hx
-  exact pool_safe_partial h0 (basic_reach hB hr).2
+theorem no_deadlock {capacity maxCap : Int} {dyn : Bool} {progs : List (List Op)} {s0 s : State}
+    (h0 : init capacity maxCap dyn progs = some s0) (hr : ReachAll s0 s)
+    (hstuck : ∀ j, step s j {} = none) :
+    (∀ t ∈ s.threads, Finished t ∨ AtGetWait t ∨ AtShrinkRecv t
+        ∨ (AtScaleLock t ∧ ∃ u ∈ s.threads, AtShrinkRecv u))
+    ∧ ((∃ t ∈ s.threads, ¬ Finished t) →
+        s.pool.chan = [] ∧ s.pool.closed = false
+        ∧ (handedOut s : Int) = s.pool.capacity + (sumN closeP s.threads : Nat)) := by
+  obtain ⟨hI, hL⟩ := reach_linv h0 hr
+  have hnone : ∀ u ∈ s.threads, stepThread s.pool u {} = none := by
+    intro u hu
+    obtain ⟨j, hj⟩ := List.mem_iff_getElem?.mp hu
+    exact step_none hj (hstuck j)
+  have hlock : s.pool.lock = false := by
+    cases hl : s.pool.lock with
+    | false => rfl
+    | true =>
+      obtain ⟨j, u, hj, _, hsome⟩ := lock_held_has_running_holder h0 hr hl {}
+      simp [hstuck j] at hsome
+  have hidle : s.pool.idleBusy = 0 := by
+    rcases Nat.eq_zero_or_pos s.pool.idleBusy with h | h
+    · exact h
+    · obtain ⟨j, u, hj, _, hsome⟩ := (timer_stop_waits_for_running_callback h0 hr {}).1 (by omega)
+      simp [hstuck j] at hsome
+  have hcapb : s.pool.capBusy = 0 := by
+    rcases Nat.eq_zero_or_pos s.pool.capBusy with h | h
+    · exact h
+    · obtain ⟨j, u, hj, _, hsome⟩ := (timer_stop_waits_for_running_callback h0 hr {}).2 (by omega)
+      rcases hsome with hsome | ⟨_, hl⟩
+      · simp [hstuck j] at hsome
+      · rw [hlock] at hl; cases hl
+  -- classification, with the state of the channel
+  have hclass : ∀ t ∈ s.threads, Finished t ∨
+      (s.pool.chan = [] ∧ s.pool.closed = false ∧
+        (AtGetWait t ∨ AtShrinkRecv t ∨ (AtScaleLock t ∧ ∃ u ∈ s.threads, AtShrinkRecv u))) := by
+    intro t ht
+    obtain ⟨k, hk⟩ := List.mem_iff_getElem?.mp ht
+    obtain ⟨hA, _, hroom, _⟩ := inv_local hI hk
+    cases blocked_cases _ _ _ (hnone t ht) with
+    | finished h1 h2 => exact Or.inl ⟨h1, h2⟩
+    | dead h1 => exact absurd h1 (hI.alive t ht)
+    | onLock _ hl _ => rw [hlock] at hl; cases hl
+    | onScaling _ hsc hpc =>
+      obtain ⟨j, u, hj, _, hsome⟩ := scaling_held_has_running_holder h0 hr hsc {}
+      rcases hsome with hsome | ⟨c1, c2, c3⟩
+      · simp [hstuck j] at hsome
+      · exact Or.inr ⟨c1, c2, Or.inr (Or.inr ⟨hpc, u, List.mem_of_getElem? hj, c3⟩)⟩
+    | getWait c1 c2 hpc => exact Or.inr ⟨c1, c2, Or.inl hpc⟩
+    | shrinkWait c1 c2 hpc => exact Or.inr ⟨c1, c2, Or.inr (Or.inl hpc)⟩
+    | full hfull hw =>
+      exfalso
+      rcases hw with hw | ⟨c, old, i, hpc⟩
+      · omega
+      · simp [A, hpc] at hA
+        simp [growP, hpc] at hroom
+        omega
+    | idleTimer hb _ => exact absurd hidle hb
+    | capTimer hb _ => exact absurd hcapb hb
+  constructor
+  · intro t ht
+    rcases hclass t ht with h | ⟨_, _, h⟩
+    · exact Or.inl h
+    · exact Or.inr h
+  · intro ⟨t, ht, hnf⟩
+    rcases hclass t ht with h | ⟨c1, c2, _⟩
+    · exact absurd h hnf
+    · refine ⟨c1, c2, ?_⟩
+      have hz : ∀ u ∈ s.threads, pcTok u.pc = 0 ∧ growP u = 0 := by
+        intro u hu
+        rcases hclass u hu with h | ⟨_, _, h | h | ⟨h, _⟩⟩
+        · simp [growP, h.1, pcTok]
+        · obtain ⟨f, hf⟩ := h; simp [growP, hf, pcTok]
+        · obtain ⟨c, old, i, hf⟩ := h; simp [growP, hf, pcTok]
+        · obtain ⟨c, hf⟩ := h; simp [growP, hf, pcTok]
+      have e1 : sumN tok s.threads = handedOut s :=
+        sumN_congr _ _ _ (by intro u hu; simp [tok, (hz u hu).1])
+      have e2 : sumN growP s.threads = 0 := by
+        rw [sumN_congr growP (fun _ => 0) _ (by intro u hu; exact (hz u hu).2)]
+        exact sumN_const_zero _
+      have heq := hI.eq
+      simp [c1] at heq
+      omega
 
 /-! ## No resource is issued twice (all runs, all operations) -/
 
@@ -459,7 +786,7 @@ theorem no_two_holders {capacity maxCap : Int} {dyn : Bool} {progs : List (List 
   · simp [resW] at h2
     omega
 
-/-! ## Concrete runs: witnesses of the negation, and non-vacuity -/
+/-! ## Concrete runs: the former witness schedules, and non-vacuity -/
 
 theorem reachAll_run (s0 s : State) (hs : ReachAll s0 s) (sched : List (Nat × Alt)) :
     ReachAll s0 (run s sched) := by
@@ -472,47 +799,10 @@ theorem reachAll_run (s0 s : State) (hs : ReachAll s0 s) (sched : List (Nat × A
     | none => simpa using ih s hs
     | some r => obtain ⟨s', ev⟩ := r; simpa using ih s' (.step hs h)
 
-/-- Decidable form of `Allowed`. -/
-def allowedB (s : State) (i : Nat) : Bool :=
-  match s.threads[i]? with
-  | some t =>
-    match t.pc with
-    | .sCas c old => !(decide (s.pool.capacity = old) && decide (c < old)) || (decide (c = 0) && !s.pool.idleOn)
-    | _ => true
-  | none => true
-
-theorem allowedB_sound {s : State} {i : Nat} (h : allowedB s i = true) : Allowed s i := by
-  intro t ht c old hpc hcap hlt
-  simp [allowedB, ht, hpc, hcap, hlt] at h
-  exact h
-
-/-- Every step executed by `run` is allowed. -/
-def runAllowed (s : State) : List (Nat × Alt) → Bool
-  | [] => true
-  | (i, a) :: rest =>
-    match step s i a with
-    | some (s', _) => allowedB s i && runAllowed s' rest
-    | none => runAllowed s rest
-
-theorem reach_run (s0 s : State) (hs : Reach s0 s) (sched : List (Nat × Alt))
-    (h : runAllowed s sched = true) : Reach s0 (run s sched) := by
-  induction sched generalizing s with
-  | nil => exact hs
-  | cons x rest ih =>
-    obtain ⟨i, a⟩ := x
-    unfold run
-    unfold runAllowed at h
-    cases hst : step s i a with
-    | none => simp [hst] at h ⊢; exact ih s hs h
-    | some r =>
-      obtain ⟨s', ev⟩ := r
-      simp [hst] at h ⊢
-      exact ih s' (.step hs (allowedB_sound h.1) hst) h.2
-
 /-- `n` consecutive steps of thread `i`. -/
 def rep (i n : Nat) : List (Nat × Alt) := List.replicate n (i, {})
 
-theorem witness_of_run (c m : Int) (d : Bool) (progs : List (List Op)) (sched : List (Nat × Alt))
+theorem exists_of_run (c m : Int) (d : Bool) (progs : List (List Op)) (sched : List (Nat × Alt))
     (P : State → Bool) (h : ((init c m d progs).map fun s0 => P (run s0 sched)) = some true) :
     ∃ s0 s, init c m d progs = some s0 ∧ ReachAll s0 s ∧ P s = true := by
   cases hi : init c m d progs with
@@ -523,79 +813,65 @@ theorem witness_of_run (c m : Int) (d : Bool) (progs : List (List Op)) (sched : 
 
 def pcOf (s : State) (i : Nat) : Option Pc := s.threads[i]?.map (·.pc)
 
-/-! ### Witness 1: scale-in tick racing a scale-out (corpus/C24 line 1)
+/-! ### The former witness schedules (corpus/C24 lines 1–5), on the repaired pool
 
-  capacity 1, max 2.  Clients 0 and 1 take both slots (1 scales out to 2).  The
-  scale-in tick (thread 3) spawns thread 4, which swaps the capacity 2 → 1 and
-  waits for a slot.  Client 2 finds the channel empty and scales out again
-  (1 < 2): three resources are handed out.  Then clients 0, 1 return theirs and
-  the Put of client 2 finds the channel full. -/
+  Each of them ran into the window of a shrinking ScaleCapacity; the capacity
+  change that used to break the pool now waits (or, for the scale-out, is
+  refused and the Get waits for a returned resource). -/
+
+/-- corpus line 1: capacity 1, max 2, clients 0 and 1 hold both slots, the
+    scale-in goroutine (thread 4) has swapped 2 → 1 and waits for a slot.
+    Client 2 finds the semaphore taken, does not scale out and waits: two
+    resources out, not three.  Once client 0 returns its resource the shrink
+    completes. -/
 def w1Progs : List (List Op) := [[.get 0, .put], [.get 0, .put], [.get 0, .put], [.age, .tick]]
-def w1Sched : List (Nat × Alt) := rep 0 6 ++ rep 1 12 ++ rep 3 6 ++ rep 4 3 ++ rep 2 12
+def w1Sched : List (Nat × Alt) := rep 0 6 ++ rep 1 14 ++ rep 3 6 ++ rep 4 4 ++ rep 2 12
 
-theorem shrink_scaleout_overalloc_witness :
-    ∃ s0 s, init 1 2 true w1Progs = some s0 ∧ ReachAll s0 s ∧
-      decide (s.pool.maxCap < handedOut s) = true :=
-  witness_of_run 1 2 true w1Progs w1Sched (fun s => decide (s.pool.maxCap < handedOut s)) (by decide)
+example : ∃ s0 s, init 1 2 true w1Progs = some s0 ∧ ReachAll s0 s ∧
+    (handedOut s == 2 && pcOf s 2 == some (.gWait 0) && pcOf s 4 == some (.sShrRecv 1 2 0)
+      && s.pool.scaling && s.pool.capacity == 1) = true :=
+  exists_of_run 1 2 true w1Progs w1Sched _ (by decide)
 
-theorem shrink_scaleout_put_full_witness :
-    ∃ s0 s, init 1 2 true w1Progs = some s0 ∧ ReachAll s0 s ∧
-      (pcOf s 2 == some .dead && !s.pool.closed && s.pool.chan.length == s.pool.maxCap) = true :=
-  witness_of_run 1 2 true w1Progs (w1Sched ++ rep 0 4 ++ rep 1 4 ++ rep 2 2) _ (by decide)
+example : ∃ s0 s, init 1 2 true w1Progs = some s0 ∧ ReachAll s0 s ∧
+    (handedOut s == 1 && pcOf s 4 == some .idle && !s.pool.scaling && s.pool.capacity == 1
+      && s.pool.chan.length == 0) = true :=
+  exists_of_run 1 2 true w1Progs (w1Sched ++ rep 0 4 ++ rep 4 9) _ (by decide)
 
-/-! ### Witness 2: a growing ScaleCapacity during a pending shrinking one (corpus line 2)
-
-  capacity = max = 3, three resources out.  ScaleCapacity(1) swaps 3 → 1 and
-  waits for two slots; ScaleCapacity(3) swaps 1 → 3 and puts two new slots into
-  the channel.  The first Put fills the channel, the second one panics
-  ("attempt to Put into a full ResourcePool") although only 3 = max resources
-  were ever handed out. -/
+/-- corpus line 2: ScaleCapacity(1) pending (3 → 1); ScaleCapacity(3) now waits
+    for the semaphore instead of adding two slots; all three Puts succeed and
+    the pool ends with capacity 3 = three slots in the channel. -/
 def w2Progs : List (List Op) := [[.get 0, .put], [.get 0, .put], [.get 0, .put], [.scale 1], [.scale 3]]
-def w2Sched : List (Nat × Alt) := rep 0 6 ++ rep 1 6 ++ rep 2 6 ++ rep 3 3 ++ rep 4 7 ++ rep 0 4 ++ rep 1 2
+def w2Sched : List (Nat × Alt) := rep 0 6 ++ rep 1 6 ++ rep 2 6 ++ rep 3 4 ++ rep 4 7
 
-theorem shrink_grow_put_full_witness :
-    ∃ s0 s, init 3 3 false w2Progs = some s0 ∧ ReachAll s0 s ∧
-      (pcOf s 1 == some .dead && !s.pool.closed && s.pool.chan.length == s.pool.maxCap
-        && decide (handedOut s ≤ s.pool.maxCap)) = true :=
-  witness_of_run 3 3 false w2Progs w2Sched _ (by decide)
+example : ∃ s0 s, init 3 3 false w2Progs = some s0 ∧ ReachAll s0 s ∧
+    (pcOf s 3 == some (.sShrRecv 1 3 0) && pcOf s 4 == some (.sLock 3) && s.pool.capacity == 1) = true :=
+  exists_of_run 3 3 false w2Progs w2Sched _ (by decide)
 
-/-! ### Witness 3: Close during a pending shrinking ScaleCapacity (corpus lines 3–4)
+example : ∃ s0 s, init 3 3 false w2Progs = some s0 ∧ ReachAll s0 s ∧
+    (s.threads.all (fun t => t.pc == .idle && t.prog.isEmpty) && s.pool.capacity == 3
+      && s.pool.chan.length == 3 && s.pool.inUse == 0) = true :=
+  exists_of_run 3 3 false w2Progs (w2Sched ++ rep 0 4 ++ rep 1 4 ++ rep 3 9 ++ rep 4 12 ++ rep 2 4 ++ rep 4 9) _ (by decide)
 
-  capacity = max = 2, both resources out.  ScaleCapacity(1) swaps 2 → 1 and
-  waits for a slot; Close swaps 1 → 0, takes the slot of the first Put and closes
-  the channel; the second Put panics on the closed channel. -/
+/-- corpus lines 3–5: ScaleCapacity(1) pending (2 → 1); Close waits for the
+    semaphore, then for both resources, and closes an empty pool: no Put meets
+    a closed channel and the quiescent equation holds at the end. -/
 def w3Progs : List (List Op) := [[.get 0, .put], [.get 0, .put], [.scale 1], [.close]]
-def w3Sched : List (Nat × Alt) := rep 0 6 ++ rep 1 6 ++ rep 2 3 ++ rep 3 5 ++ rep 0 4 ++ rep 3 4 ++ rep 1 2
+def w3Sched : List (Nat × Alt) := rep 0 6 ++ rep 1 6 ++ rep 2 4 ++ rep 3 5
 
-theorem shrink_close_put_closed_witness :
-    ∃ s0 s, init 2 2 false w3Progs = some s0 ∧ ReachAll s0 s ∧
-      (pcOf s 1 == some .dead && s.pool.closed) = true :=
-  witness_of_run 2 2 false w3Progs w3Sched _ (by decide)
+example : ∃ s0 s, init 2 2 false w3Progs = some s0 ∧ ReachAll s0 s ∧
+    (pcOf s 2 == some (.sShrRecv 1 2 0) && pcOf s 3 == some (.sLock 0) && !s.pool.closed) = true :=
+  exists_of_run 2 2 false w3Progs w3Sched _ (by decide)
 
-/-! ### Witness 4: the quiescent equation after Close during a pending shrink (corpus line 5)
+example : ∃ s0 s, init 2 2 false w3Progs = some s0 ∧ ReachAll s0 s ∧
+    (s.threads.all (fun t => t.pc == .idle && t.prog.isEmpty) && s.pool.closed && s.pool.capacity == 0
+      && s.pool.chan.length == 0 && s.pool.inUse == 0) = true :=
+  exists_of_run 2 2 false w3Progs (w3Sched ++ rep 0 4 ++ rep 2 9 ++ rep 3 9 ++ rep 1 4 ++ rep 3 9) _ (by decide)
 
-  capacity = max = 2, one resource out.  ScaleCapacity(1) has swapped 2 → 1 but
-  not yet taken its slot; Close swaps 1 → 0, takes the idle slot, closes and
-  returns; ScaleCapacity(1) "receives" from the closed channel and returns.  No
-  operation is in progress, yet idle (0) + in-use (1) ≠ capacity (0). -/
-def w4Progs : List (List Op) := [[.get 0, .put], [.scale 1], [.close]]
-def w4Sched : List (Nat × Alt) := rep 0 6 ++ rep 1 3 ++ rep 2 9 ++ rep 1 3
-
-theorem shrink_close_quiescent_witness :
-    ∃ s0 s, init 2 2 false w4Progs = some s0 ∧ ReachAll s0 s ∧
-      (s.threads.all (fun t => t.pc == .idle)
-        && decide ((s.pool.chan.length : Int) + s.pool.inUse ≠ s.pool.capacity)) = true :=
-  witness_of_run 2 2 false w4Progs w4Sched _ (by decide)
-
-/-- The unrestricted statement of C24 does not hold of the pool. -/
-theorem pool_not_safe_in_general_witness :
-    ¬ ∀ (capacity maxCap : Int) (dyn : Bool) (progs : List (List Op)) (s0 s : State),
-        init capacity maxCap dyn progs = some s0 → ReachAll s0 s → Safe s := by
-  intro h
-  obtain ⟨s0, s, h0, hr, hp⟩ := shrink_scaleout_overalloc_witness
-  have := (h _ _ _ _ s0 s h0 hr).notOver
-  simp at hp
-  omega
+/-- fix 481c0c2: ScaleCapacity(0) closes the channel while an idle sweep is
+    between two slots; the sweep returns instead of sending the zero value. -/
+example : ∃ s0 s, init 2 2 false [[.sweep], [.scale 0]] = some s0 ∧ ReachAll s0 s ∧
+    (s.threads.all (fun t => t.pc == .idle) && s.pool.closed && s.pool.idleBusy == 0) = true :=
+  exists_of_run 2 2 false [[.sweep], [.scale 0]] (rep 0 4 ++ rep 1 20 ++ rep 0 5) _ (by decide)
 
 /-! ### Non-vacuity -/
 
@@ -603,19 +879,59 @@ theorem pool_not_safe_in_general_witness :
 def roundRobin (n steps : Nat) : List (Nat × Alt) := (List.range steps).map fun k => (k % n, {})
 
 def exProgs : List (List Op) :=
-  [[.get 0, .put, .get 1, .drop], [.get 0, .put, .get 3], [.sweep, .sweep], [.setCap 2], [.close]]
+  [[.get 0, .put, .get 1, .drop], [.get 0, .put, .get 3], [.sweep, .sweep], [.setCap 2], [.age, .tick, .scale 1], [.close]]
 
-/-- `pool_safe_partial` applies to non-trivial runs: two clients, a sweeper, a
-    growing SetCapacity and a Close, every step allowed; the run passes through
-    a state with `maxCap` resources handed out and ends closed and quiescent. -/
-example : ∃ s0 s1 s2, init 1 2 true exProgs = some s0 ∧ Reach s0 s1 ∧ Reach s0 s2 ∧
+/-- `pool_safe` is about runs in which everything happens: two clients, a
+    sweeper, a growing SetCapacity, a scale-in tick, a ScaleCapacity and a
+    Close, interleaved step by step; the run passes through a state with
+    `maxCap` resources handed out and ends closed and quiescent. -/
+example : ∃ s0 s1 s2, init 1 2 true exProgs = some s0 ∧ ReachAll s0 s1 ∧ ReachAll s0 s2 ∧
     handedOut s1 = 2 ∧ s2.pool.closed = true ∧ (∀ t ∈ s2.threads, t.pc = .idle ∧ t.prog = []) := by
-  refine ⟨(init 1 2 true exProgs).get (by decide), run _ (rep 0 6 ++ rep 1 12), run _ (roundRobin 5 400), by simp,
-    reach_run _ _ .init _ (by decide), reach_run _ _ .init _ (by decide), by decide, by decide, by decide⟩
+  refine ⟨(init 1 2 true exProgs).get (by decide), run _ (rep 0 6 ++ rep 1 14), run _ (roundRobin 7 200), by simp,
+    reachAll_run _ _ .init _, reachAll_run _ _ .init _, by decide, by decide, by decide⟩
 
-/-- The programs of `pool_safe_clients_sweep_close` exist and its runs reach closed pools. -/
-example : (∀ p ∈ ([[.get 0, .put], [.get 3, .get 0, .drop], [.sweep], [.close]] : List (List Op)),
-    p.all basicOp = true) := by decide
+/-- … and runs in which the automatic scale-in fires while both resources are
+    out (thread 4 is its goroutine), Close queues behind it, and both complete
+    as the resources come back. -/
+example : ∃ s0 s, init 1 2 true [[.get 0, .put], [.get 0, .put], [.age, .tick], [.close]] = some s0 ∧ ReachAll s0 s ∧
+    s.threads.length = 5 ∧ s.pool.closed = true ∧ s.pool.capacity = 0 ∧ s.pool.inUse = 0
+    ∧ (∀ t ∈ s.threads, t.pc = .idle ∧ t.prog = []) := by
+  refine ⟨(init 1 2 true [[.get 0, .put], [.get 0, .put], [.age, .tick], [.close]]).get (by decide),
+    run _ (rep 0 6 ++ rep 1 14 ++ rep 2 6 ++ rep 4 4 ++ rep 3 9 ++ rep 0 4 ++ rep 4 9 ++ rep 3 20 ++ rep 1 4 ++ rep 3 9),
+    by simp, reachAll_run _ _ .init _, by decide, by decide, by decide, by decide, by decide⟩
+
+/-- Stuck states are found by looking at the finitely many threads. -/
+theorem stuck_of_all (s : State)
+    (h : (List.range s.threads.length).all (fun j => (step s j {}).isNone) = true) : ∀ j, step s j {} = none := by
+  intro j
+  rcases Nat.lt_or_ge j s.threads.length with hj | hj
+  · have := List.all_eq_true.mp h j (List.mem_range.mpr hj)
+    simpa using this
+  · unfold step
+    simp [List.getElem?_eq_none hj]
+
+/-- The hypothesis of `no_deadlock` is satisfiable by a state with unfinished
+    threads, and its conclusion names all three kinds of waiting: client 0
+    holds both resources and has ended; ScaleCapacity(1) has lowered the
+    capacity and waits for a slot; Close waits for the semaphore; a second
+    client waits in Get. -/
+example : ∃ s0 s, init 2 2 false [[.get 0, .get 0], [.scale 1], [.close], [.get 0]] = some s0 ∧ ReachAll s0 s ∧
+    (∀ j, step s j {} = none) ∧ (∃ t ∈ s.threads, ¬ Finished t) ∧
+    pcOf s 1 = some (.sShrRecv 1 2 0) ∧ pcOf s 2 = some (.sLock 0) ∧ pcOf s 3 = some (.gWait 0) ∧
+    handedOut s = 2 := by
+  refine ⟨(init 2 2 false [[.get 0, .get 0], [.scale 1], [.close], [.get 0]]).get (by decide),
+    run _ (rep 0 12 ++ rep 1 9 ++ rep 2 9 ++ rep 3 9), by simp, reachAll_run _ _ .init _,
+    stuck_of_all _ (by decide), by decide, by decide, by decide, by decide, by decide⟩
+
+/-- The hypotheses of `scaling_held_has_running_holder` / `holder_rank_decreases`
+    hold in reachable states: here the scale-in goroutine holds the semaphore
+    with rank 5 while a Close waits for it. -/
+example : ∃ s0 s, init 1 2 true [[.get 0], [.get 0], [.age, .tick], [.close]] = some s0 ∧ ReachAll s0 s ∧
+    s.pool.scaling = true ∧ (s.threads[4]?.map holder) = some 1 ∧ (s.threads[4]?.map (rank s.pool)) = some 5
+    ∧ pcOf s 3 = some (.sLock 0) := by
+  refine ⟨(init 1 2 true [[.get 0], [.get 0], [.age, .tick], [.close]]).get (by decide),
+    run _ (rep 0 6 ++ rep 1 14 ++ rep 2 6 ++ rep 4 4 ++ rep 3 9), by simp, reachAll_run _ _ .init _,
+    by decide, by decide, by decide, by decide⟩
 
 /-- `pool_no_double_issue` is about states in which resources really are in
     circulation: here resource 0 is held by client 0 and resource 1 lies in the channel. -/
